@@ -448,7 +448,8 @@ func (g *Terms) Prelude() string {
 	for _, s := range ks {
 		pt = append(pt, fmt.Sprintf("(%s, Some %s)", vh.CoqString(s), zlit(g.ptab[s])))
 	}
-	return "Definition E := env_of_tables [] [] [] " + vh.CoqList(pt) + ".\n"
+	// times are concrete in the model (Sql/TimeText.v): the table Go computed is only compared with the model's own parser
+	return "Definition PT : list (string * option Z) := " + vh.CoqList(pt) + ".\n"
 }
 
 func BaseOf(t reflect.Type) string {
